@@ -1138,12 +1138,18 @@ class IntFlag(Adapter):
         for v in val:
             if isinstance(v, str):
                 v = self.flag_cls[v]
-            new_val |= v
+            # OR as plain ints, left-over bits may be negative on signed fields
+            # and the flag class would mangle those.
+            new_val |= int(v)
         return new_val
 
     def decode(self, val: Any, ctx: Optional[ParseContext], pod: bool = False) -> Any:
         if pod:
             return dtypes.flags_to_pod(self.flag_cls, val)
+        # The flag class can't represent negative numbers (sign bit set on a signed field)
+        # without changing their value, leave those as ints.
+        if val < 0:
+            return val
         return self.flag_cls(val)
 
     def default_value(self) -> Any:
